@@ -776,7 +776,7 @@ End Complete.
 (* every packet produced by the project's own encoder for the same keys is accepted *)
 Lemma c10_complete : forall seal open, ideal_aead seal open ->
   (* a request: NewRequestPacket (identifier of 32 bytes from newID, first cookie
-     of the key exchange, which admits cookies of at most 896 bytes) encoded by
+     of the key exchange, which lets through cookies of at most 896 bytes) encoded by
      EncodePacket under the C2S key, received by DecodePacket + ProcessRequest *)
   (forall (c : bytes) (rest cookies phs : list bytes) (hdr uid key rnd : bytes),
      new_request (c :: rest) = Ok (cookies, phs) -> (length c <= 896)%nat ->
